@@ -338,6 +338,19 @@ def preprocess(outputs: DictOfNamedArrays, target: Target) -> PreprocessResult:
     assert isinstance(new_outputs, DictOfNamedArrays)
 
     mapper = CodeGenPreprocessor(target)
+
+    # Names chosen by the user (named inputs, output names) must not be handed
+    # out again to unnamed placeholders or to data wrappers.
+    from pytato.transform import InputGatherer
+    input_gatherer = InputGatherer()
+    mapper.var_name_gen.add_names(
+        {input_expr.name
+         for output in new_outputs.values()
+         for input_expr in input_gatherer(output.expr)
+         if isinstance(input_expr, Placeholder | SizeParam)
+         if input_expr.name is not None}
+        | set(new_outputs.keys()))
+
     new_outputs = copy_dict_of_named_arrays(new_outputs, mapper)
 
     return PreprocessResult(outputs=new_outputs,
